@@ -52,7 +52,7 @@ func init() {
 		},
 		ExpectProbes: []string{"c02.end.error-after-clean-prefix", "c02.end.eof-at-boundary-cut", "c02.server.handshake-refused", "c02.server.request-from-clean-handshake",
 			"c02.server.fallback", "c02.fallback.payload-checked", "c02.client.response-refused", "c02.foreign-key", "c02.clean-direction-complete", "c02.prefix-delivered>0",
-			"c02.donor.same-key", "c02.donor.other-key", "c02.path.writeto", "c02.long-session"},
+			"c02.donor.same-key", "c02.donor.other-key", "c02.path.writeto", "c02.long-session", "c02.read-again-after-error"},
 	})
 }
 
@@ -270,6 +270,27 @@ func readAll(s *simrt.Sim, c netio.Conn, key uint64, off int64, rmode int) (end 
 			return off, -1, nil
 		}
 		if err != nil {
+			// A reader that does not give up after the failure: whatever it is still handed must
+			// continue the genuine prefix (skipping inserted garbage is fine, skipping genuine data
+			// is not).
+			if s.GenChance(128) {
+				s.Probe("c02.read-again-after-error")
+				later := off // what is reported is the position of the failure; later bytes are only checked
+				for k := 0; k < 8; k++ {
+					b2 := make([]byte, 70000)
+					n2, err2 := c.Read(b2)
+					if n2 > 0 {
+						if i := util.CheckStream(b2[:n2], key, later); i >= 0 {
+							return later, later + int64(i), nil
+						}
+						later += int64(n2)
+						s.Probe("c02.prefix-continued-after-error")
+					}
+					if err2 == io.EOF {
+						break
+					}
+				}
+			}
 			return off, -1, err
 		}
 		if n == 0 {
@@ -444,6 +465,7 @@ func Run(s *simrt.Sim) {
 		s.Probe("c02.long-session")
 	}
 	cRmode, sRmode := s.Choose(2), s.Choose(2)
+	bystanderBeforeFallback := s.GenChance(96)
 
 	ka := newKeys(s, cfg, nil)
 	if ka == nil {
@@ -501,7 +523,7 @@ func Run(s *simrt.Sim) {
 	var donor *session
 	var donorKeys string
 	for i := 0; i < nOps; i++ {
-		o := &op{kind: util.Pick(s, []string{"flip", "flip", "cut", "drop", "dup", "swap", "splice", "respswap", "cut", "flip", "replay"})}
+		o := &op{kind: util.Pick(s, []string{"flip", "flip", "cut", "drop", "dup", "swap", "splice", "respswap", "cut", "flip", "replay", "garble"})}
 		o.dir = util.Pick(s, []string{"c2s", "s2c"})
 		if long != "" && s.GenChance(200) {
 			o.kind, o.dir = "replay", long
@@ -661,13 +683,23 @@ func Run(s *simrt.Sim) {
 		}
 		raw.Tap = A.s2c.tap
 		req, err := srvA.HandleStream(raw, util.Logger())
+		isFallback := err == nil && useFallback && sameTarget(req.Addr, cfg.fallback) && req.Username == ""
+		if isFallback && bystanderBeforeFallback {
+			// The relay routes and dials the fallback before it forwards the payload; meanwhile the
+			// process serves other connections. The request must still hold the received bytes then.
+			s.Probe("c02.fallback.bystander-session")
+			record(s, w, cfg, ka, srvA, srvHost, cliHost, 8401)
+			if s.Failed() {
+				return
+			}
+		}
 		req.Payload = append([]byte(nil), req.Payload...) // the slice aliases the connection's write buffer: look at it now
 		srvReq, srvErr, srvHandled = req, err, true
 		if err != nil {
 			raw.Close()
 			return
 		}
-		if useFallback && sameTarget(req.Addr, cfg.fallback) && req.Username == "" {
+		if isFallback {
 			// hand-over to the fallback: the consumer sees the payload and then the rest of the raw stream
 			srvFallback = true
 			fbGot = append(fbGot, req.Payload...)
